@@ -322,7 +322,8 @@ def record_and_validate(ctx, exe, known):
     h = hrun.run_harness(exe, ["record", n, ctx.seed, 3, 80], timeout=900)
     if h.crashed:
         ctx.violation("real code crashed while running a random program (record mode, seed %d): %s" % (
-            ctx.seed, h.err[-600:]), {"mode": "record", "seed": ctx.seed, "n": n, "stderr": h.err[-3000:]})
+            ctx.seed, h.err[-600:]), {"mode": "record", "seed": ctx.seed, "n": n, "stderr": h.err[-3000:],
+                                      "args": ["record", n, ctx.seed, 3, 80]})
         return
     if h.rc != 0:
         raise Broken("c05 record failed rc=%s: %s" % (h.rc, h.err[-2000:]))
@@ -429,6 +430,13 @@ def replay(ctx, path):
         for rj in res["rejected"]:
             ctx.violation("replayed log rejected at event %d" % rj["at"], rep)
         ctx.sample({"kind": "replayed log", "events": rep["events"][:8]})
+        return
+    if rep.get("mode") == "record" and rep.get("args"):
+        h = hrun.run_harness(exe, rep["args"], timeout=900)
+        ctx.traces += 1
+        ctx.sample({"kind": "re-run of the recorder batch that crashed", "args": rep["args"]})
+        if h.crashed or h.timed_out:
+            ctx.violation("re-run: real code crashed again (rc=%s): %s" % (h.rc, h.err[-600:]), rep)
         return
     b = rep.get("behaviour")
     if not b:
